@@ -280,6 +280,97 @@ pub fn verify_dir(src: &Path, exp: &Expected, cov: &mut Cov, label: &str) -> Res
     Ok(())
 }
 
+/// Directories "left behind by a crash" of the pinned release at its very beginning: the pinned
+/// storage's first initialisation and first requests are recorded through the VFS shim; at every
+/// file-system event the process-crash image and some power-loss images are opened by the current
+/// code, which must start and serve (a new client can append and read back, the old client's chain
+/// is readable without errors).
+pub fn pinned_init_crashes(seed: u64, thorough: bool, cov: &mut Cov) -> Option<Found> {
+    use crate::crash::Shadow;
+    use crate::vfs;
+    if vfs::register().is_err() {
+        return None;
+    }
+    let work = ScratchDir::new("c19init");
+    let x = Rng::new(seed).fork(0x1917).uuid();
+    let mut shadow = Shadow::from_dir(work.path());
+    vfs::start_recording();
+    {
+        if let Ok(st) = PSqlite::new(work.path()) {
+            let server = PServer::new(PConfig { snapshot_days: 14, snapshot_versions: 100 }, st);
+            if let Ok(mut t) = server.txn(x) {
+                let _ = t.new_client(Uuid::nil());
+                let _ = t.commit();
+            }
+            let mut p = Uuid::nil();
+            for i in 0..3u8 {
+                if let Ok((PAdd::Ok(v), _)) = server.add_version(x, p, vec![i; 40]) {
+                    p = v;
+                }
+            }
+            let _ = server.add_snapshot(x, p, vec![7; 300]);
+        }
+    }
+    let events = vfs::stop_recording();
+    let mut rng = Rng::new(seed).fork(0x1918);
+    let mut seen = std::collections::HashSet::new();
+    for (ei, ev) in events.iter().enumerate() {
+        if ev.is_crash_point() {
+            let mut images = vec![("process-crash".to_string(), shadow.process_image())];
+            images.extend(shadow.power_images(&mut rng, if thorough { 6 } else { 1 }, false).into_iter().map(|(n, im)| (format!("power-loss: {n}"), im)));
+            for (iname, im) in images {
+                if !seen.insert(im.fingerprint()) {
+                    continue;
+                }
+                cov.evaluations += 1;
+                cov.count("pinned_first_start_crash_images", 1);
+                let d = ScratchDir::new("c19img");
+                if im.materialize(d.path()).is_err() {
+                    continue;
+                }
+                let fail = |m: String| {
+                    Some(Found {
+                        property: "C19".into(),
+                        signature: format!("C19:pinned first start crash {}", m.split_whitespace().take(6).collect::<Vec<_>>().join(" ")),
+                        msg: format!("the pinned release crashed during its first start-up / first requests (before file-system event #{ei}: {} on {}; image [{iname}]); opened by the current code, {m}", ev.kind(), ev.file().map(|f| f.rsplit('/').next().unwrap_or(f)).unwrap_or("")),
+                        replay: json!({"origin": "pinned-init-crash", "case": 900_000 + ei}),
+                    })
+                };
+                let mut subj = match Subject::open_dir(Kind::SQL_LIB, Config::default(), d) {
+                    Ok(s) => s,
+                    Err(e) => return fail(format!("the directory does not open: {e:#}")),
+                };
+                // the old client's chain: whatever had been committed is readable, no errors
+                let mut p = Uuid::nil();
+                for _ in 0..4 {
+                    match subj.exec(x, &Req::GetChild { parent: p }) {
+                        Resp::Found { vid, .. } => p = vid,
+                        Resp::NotFound | Resp::NoSuchClient => break,
+                        o => return fail(format!("reading the old client's chain at {p} answers {}", o.short())),
+                    }
+                }
+                if let Resp::Error(e) = subj.exec(x, &Req::GetSnapshot) {
+                    return fail(format!("GetSnapshot of the old client fails: {e}"));
+                }
+                // appending: the old client continues its chain, a new client starts one
+                let newc = rng.uuid();
+                for (c, parent) in [(x, p), (newc, Uuid::nil())] {
+                    match subj.exec(c, &Req::AddVersion { parent, data: b"after the crash".to_vec() }) {
+                        Resp::AddOk { vid, .. } => match subj.exec(c, &Req::GetChild { parent }) {
+                            Resp::Found { vid: v2, data, .. } if v2 == vid && data == b"after the crash" => {}
+                            o => return fail(format!("a version appended after the upgrade cannot be read back: {}", o.short())),
+                        },
+                        o => return fail(format!("no version can be appended (client {}): {}", if c == x { "of the old directory" } else { "new" }, o.short())),
+                    }
+                }
+                cov.hit("pinned-first-start-crash-image:served".into());
+            }
+        }
+        shadow.apply(ev);
+    }
+    None
+}
+
 pub fn fixtures_dir() -> PathBuf {
     verif_dir().join("fixtures")
 }
@@ -325,6 +416,14 @@ pub fn shard_run(tier: &str, seed: u64, replay_case: Option<usize>, shard: Shard
         }
         if let Err(m) = verify_dir(&f.join("data"), &exp, &mut cov, &format!("fixture {name}")) {
             out.found.push(Found { property: "C19".into(), signature: format!("C19:{}", m.split("] ").nth(1).unwrap_or("").split_whitespace().take(6).collect::<Vec<_>>().join(" ")), msg: m, replay: json!({"origin": "corpus", "case": i, "fixture": name}) });
+            out.cov = cov;
+            return out;
+        }
+    }
+    // ---- left behind by a crash of the pinned release during its first start
+    if replay_case.map(|c| c >= 900_000).unwrap_or(shard.k == 3 % shard.n) {
+        if let Some(f) = pinned_init_crashes(seed, thorough, &mut cov) {
+            out.found.push(f);
             out.cov = cov;
             return out;
         }
@@ -378,12 +477,12 @@ pub fn finalize(out: ShardOut, is_replay: bool) -> CheckResult {
     let coverage = json!({
         "evaluations": cov.evaluations,
         "distinct_nontrivial": cov.situations.len(),
-        "rule": "(a) committed corpus /verif/fixtures/*: data directories produced once by the pinned tree a6bc6ed (pinned executable over HTTP, pinned library, kill -9 mid-workload leaving a live WAL, copy taken while a second connection kept the WAL un-checkpointed, payloads up to 1 MB) each with expected.json; (b) directories freshly written on every run by a verbatim vendored copy of the pinned core+sqlite crates linked into the harness. Each directory is copied to scratch and opened by the current code: every client, version (ids, parent, payload bytes regenerated from its spec), latest pointer, snapshot (id, whole-second time, versions-since, bytes) must be served as written; then 5 versions and a snapshot are appended to every chain and the old history re-read. evaluations = versions verified; distinct_nontrivial = distinct fixtures / client shapes.",
+        "rule": "(a) committed corpus /verif/fixtures/*: data directories produced once by the pinned tree a6bc6ed (pinned executable over HTTP, pinned library, kill -9 mid-workload leaving a live WAL, copy taken while a second connection kept the WAL un-checkpointed, payloads up to 1 MB) each with expected.json; (b) directories freshly written on every run by a verbatim vendored copy of the pinned core+sqlite crates linked into the harness. Each directory is copied to scratch and opened by the current code: every client, version (ids, parent, payload bytes regenerated from its spec), latest pointer, snapshot (id, whole-second time, versions-since, bytes) must be served as written; then 5 versions and a snapshot are appended to every chain and the old history re-read. evaluations = versions verified; distinct_nontrivial = distinct fixtures / client shapes. Directories left behind by a crash of the pinned release during its first start-up and first requests: every file-system event of that run is a crash point whose process-crash and power-loss images are opened by the current code, which must start, read the old chain without errors and accept appended versions. A third of all directories are opened through a symbolic link, a third by a web server with an allow-list naming the stored clients.",
         "samples": cov.samples,
         "directories": out.executed,
         "situations": top.iter().take(40).map(|(k, v)| json!({"situation": k, "n": v})).collect::<Vec<_>>(),
     });
-    let required = ["corpus:", "corpus-with-leftover-wal", "fresh-pinned-directory", "snapshot-verified", "id-base", "nil-base", "chain-starts-inside-another-clients-chain", "MiB-payloads"];
+    let required = ["corpus:", "corpus-with-leftover-wal", "fresh-pinned-directory", "snapshot-verified", "id-base", "nil-base", "chain-starts-inside-another-clients-chain", "MiB-payloads", "pinned-first-start-crash-image:served"];
     let verdict = if !out.found.is_empty() {
         Verdict::Violated(out.found)
     } else if !out.errors.is_empty() {
